@@ -163,6 +163,13 @@ theorem discFail (h : HSim ha hb a b) (ctx : StepCtx) : HSim ha hb (a.discFail c
   · exact h.handleDisconnect
   · exact h
 
+theorem failStep (h : HSim ha hb a b) (ctx : StepCtx) (st : Outbound.Step) :
+    HSim ha hb (a.failStep ctx st) (b.failStep ctx st) := by
+  cases st with
+  | retained id off len s => exact h.discFail ctx
+  | control x s => exact h.handleDisconnect
+  | release id rc s => exact h.handleDisconnect
+
 theorem emit (h : HSim ha hb a b) (l : String) : HSim ha hb (a.emit l) (b.emit l) :=
   ⟨h.core, by obtain ⟨ops, e1, e2, t⟩ := h.hnd; exact ⟨ops, e1, e2, .same l t⟩, h.res⟩
 
@@ -498,7 +505,7 @@ theorem cstep_ps (fuel : Nat) (ih : CongrM ha hb fuel) : ∀ a b ctx step now, H
   obtain ⟨hs, lr, o, rfl⟩ := h.exists_withH
   simp only [performStep, prepareStep_withH, withH_live]
   cases prepareStep b step with
-  | fail e => exact (h.discFail _).finishErr _ _
+  | fail e => exact (h.failStep _ _).finishErr _ _
   | done => exact ih.sr _ _ _ _ h
   | flush pkt =>
     simp only []
